@@ -641,18 +641,23 @@ class Job:
         cmd = ["strace", "-f", "-ff", "-y", "-qq", "-s", "65536", "-e", "trace=" + TRACE_SET, "-o", os.path.join(tdir, "t")] + argv
         stdin = open(stdin_file, "rb") if stdin_file else subprocess.DEVNULL
         res = {"argv": argv, "stdin": stdin_file, "problems": []}
+        proc = subprocess.Popen(cmd, env=dict(os.environ, **self.env()), stdin=stdin, stdout=subprocess.PIPE,
+                                stderr=subprocess.PIPE, cwd=self.base, start_new_session=True)
         try:
-            p = subprocess.run(cmd, env=dict(os.environ, **self.env()), stdin=stdin, stdout=subprocess.PIPE,
-                               stderr=subprocess.PIPE, cwd=self.base, timeout=timeout)
-            res["rc"] = p.returncode
-            res["stdout"] = p.stdout
-            res["stderr"] = p.stderr.decode(errors="replace")[-1500:]
+            so, se = proc.communicate(timeout=timeout)
+            res["rc"] = proc.returncode
+            res["stdout"] = so
+            res["stderr"] = se.decode(errors="replace")[-1500:]
         except subprocess.TimeoutExpired:
+            try:
+                os.killpg(proc.pid, 9)      # strace, fclones and every transform child (own session)
+            except OSError:
+                pass
+            proc.communicate()
             res["rc"] = None
             res["stdout"] = b""
             res["stderr"] = "TIMEOUT"
             res["problems"].append(("run_timeout", "fclones did not finish within %d s" % timeout, None))
-            subprocess.run(["pkill", "-9", "-f", tdir], stdout=subprocess.DEVNULL, stderr=subprocess.DEVNULL)
         finally:
             if stdin_file:
                 stdin.close()
@@ -1064,6 +1069,15 @@ def run(ctx):
             res = job.execute(run_)
             judge(ctx, "replay", rp["tree"], run_, res, ml, pending_corr, job)
     else:
+        # corpus of minimised past failures first
+        cdir = os.path.join(core.VERIF, "corpus", "C07")
+        for fn in sorted(os.listdir(cdir)) if os.path.isdir(cdir) else []:
+            if fn.endswith(".json"):
+                rp = json.load(open(os.path.join(cdir, fn)))
+                job = Job(os.path.join(ctx.scratch, "corpus"), rp["tree"], fclones, rp.get("root_style", "abs"))
+                ml = model_plan(model, [rp["run"]])[0]
+                judge(ctx, "corpus:" + fn, rp["tree"], rp["run"], job.execute(rp["run"]), ml, pending_corr, job)
+                ctx.bump("corpus_cases", fn)
         ntrees = ctx.pick(3, 20)
         cmds_per_mode = ctx.pick(3, 5)
         chunks_per_tree = ctx.pick(5, 2)
